@@ -387,6 +387,36 @@ def oracle_state(c, ref, samples):
     return None
 
 
+def oracle_one_sided_vacuum(c, samples):
+    """gas next to vacuum (textbook solution, Toro 4.6.1/4.6.2): undisturbed state up to the fan head u -/+ a, the self-similar fan
+    u = 2/(g+1) (+-a + (g-1)/2 u_K + x/t), a = 2/(g+1) (a_K +- (g-1)/2 (u_K - x/t)) up to the vacuum front u_K +- 2 a_K/(g-1), vacuum beyond"""
+    g = max(c["gamma"], GFLOOR)
+    right_vac = c["R"][0] == 0.0
+    rho, u, p = c["L"] if right_vac else c["R"]
+    a = math.sqrt(g * p / rho)
+    sgn = 1.0 if right_vac else -1.0
+    head, front = u - sgn * a, u + sgn * 2.0 * a / (g - 1.0)
+    for (x, flag, r, us, ps) in samples:
+        if not all(math.isfinite(v) for v in (r, us, ps)) or r < 0 or ps < 0:
+            return "gas next to vacuum: sampled state at dxdt=%r is not finite / negative: %r" % (x, (r, us, ps))
+        t = sgn * (x - head)          # > 0 inside or beyond the fan
+        if abs(x - head) <= 1e-9 * (abs(head) + a) or abs(x - front) <= 1e-9 * (abs(front) + a):
+            continue                  # within round-off of a wave: either side is acceptable
+        if t < 0:
+            r0, u0, p0 = rho, u, p
+        elif sgn * (x - front) < 0:
+            af = 2.0 / (g + 1.0) * (a + sgn * 0.5 * (g - 1.0) * (u - x))
+            u0 = 2.0 / (g + 1.0) * (sgn * a + 0.5 * (g - 1.0) * u + x)
+            r0, p0 = rho * (af / a) ** (2.0 / (g - 1.0)), p * (af / a) ** (2.0 * g / (g - 1.0))
+        else:
+            r0, u0, p0 = 0.0, None, 0.0
+        tol = 1e-9
+        if abs(r - r0) > tol * rho or abs(ps - p0) > tol * p or (u0 is not None and r0 > 1e-9 * rho and abs(us - u0) > tol * (a + abs(u) + abs(x))):
+            return ("gas next to vacuum (%s state %r, vacuum on the %s, gamma %r): sampled state at dxdt=%r is %r, the exact solution has %r"
+                    % ("left" if right_vac else "right", (rho, u, p), "right" if right_vac else "left", c["gamma"], x, (r, us, ps), (r0, u0, p0)))
+    return None
+
+
 # ----------------------------------------------------------------------------------------------
 PUBLIC_ONLY = [False]
 
@@ -436,6 +466,15 @@ def run(ck):
     ncorpus = len(states)
     for i in range(n):
         states.append(gen_state(ck.rng, i))
+    for i in range(12 if ck.quick else 120):     # gas moving towards / away from a vacuum on either side
+        g0 = GAMMAS[ck.rng.below(4)]
+        rho, p = 10.0 ** (-3 + 6 * ck.rng.uniform()), 10.0 ** (-3 + 6 * ck.rng.uniform())
+        a0 = math.sqrt(max(g0, GFLOOR) * p / rho)
+        u = a0 * ck.rng.choice([0.0, 0.3, -0.3, 1.0, -1.0, 2.5, -2.5, 10.0, -10.0]) * (0.5 + ck.rng.uniform())
+        if i % 2:
+            states.append(dict(tag="vacR", gamma=g0, L=(rho, u, p), R=(0.0, 0.0, 0.0)))
+        else:
+            states.append(dict(tag="vacL", gamma=g0, L=(0.0, 0.0, 0.0), R=(rho, u, p)))
     # pass 1: the model's own star state and wave speeds
     wlines = ["W " + state_words(c) for c in states]
     wout = None
@@ -556,6 +595,15 @@ def run(ck):
     full_oracle = bool(ck.breaks) or not ck.quick
     for si, c in enumerate(states):
         if c["tag"] in ("vacL", "vacR"):
+            why = oracle_one_sided_vacuum(c, per_state.get(si, []))
+            nor += 1
+            if why:
+                bad += 1
+                vk = {"kind": "exact_riemann", "tag": c["tag"], "clause_id": "vacuum_one_sided"}
+                per_clause["vacuum_one_sided"] = per_clause.get("vacuum_one_sided", 0) + 1
+                if per_clause["vacuum_one_sided"] <= 3:
+                    ck.violation("C11 fails on the real ExactRiemannSolver::solve: " + why,
+                                 {"case": {k: v for k, v in c.items() if not k.startswith("_")}, "input_lines": [l for l, (s2, x) in zip(lines, owner) if s2 == si and l[0] == "S"]}, key=vk)
             continue
         smp = per_state.get(si, [])
         ref = ref_star(c)
